@@ -98,6 +98,14 @@ theorem c13_decoding_hook (d : List (Val × Val)) (n : Str) (m : FMeta) (dflt : 
       (henv h raw).bind fun v => (decodeFields henv d fs missing).bind fun rest => .ok ((n, m, v) :: rest) := by
   simp only [decodeFields, hl, hd]
 
+/-- … whatever the raw value is — in particular a raw `None` is handed to the field's `decoding_fn` like any other -/
+theorem c13_decoding_hook_none (d : List (Val × Val)) (n : Str) (m : FMeta) (dflt : Option Val) (t : FTy)
+    (fs : List (Str × FMeta × Option Val × FTy)) (missing : Bool) (h : Nat)
+    (hl : lookupKey (.str n) d = some .none) (hd : m.dec = some h) :
+    decodeFields henv d ((n, m, dflt, t) :: fs) missing =
+      (henv h .none).bind fun v => (decodeFields henv d fs missing).bind fun rest => .ok ((n, m, v) :: rest) :=
+  c13_decoding_hook henv d n m dflt t fs missing .none h hl hd
+
 /-- a field whose key is absent (e.g. it was marked `to_dict=False`) comes from its default -/
 theorem c13_absent_default (d : List (Val × Val)) (n : Str) (m : FMeta) (dv : Val) (t : FTy)
     (fs : List (Str × FMeta × Option Val × FTy)) (missing : Bool) (hl : lookupKey (.str n) d = none) :
@@ -303,6 +311,12 @@ example :
     toDict (fun _ _ => .ok (.str ['H'])) (.inst ['Q'] true [(['p'], { toDict := true, enc := some 12, dec := none },
         .inst ['P'] true [(['a'], FMeta.plain, .int 1)]), (['z'], FMeta.plain, .int 2)]) =
       .ok (.dict false [(.str ['p'], .str ['H']), (.str ['z'], .int 2)]) := by rfl
+
+/-- an Optional[int] field whose `decoding_fn` answers 7: a raw None is given to the function, the result is 7, not None -/
+example :
+    decode (fun _ _ => .ok (.int 7)) (.dc ['K'] true [(['o'], { toDict := true, enc := none, dec := some 22 }, none, .union [.int, .noneT])])
+      (.dict false [(.str ['o'], .none)]) =
+      .ok (.inst ['K'] true [(['o'], { toDict := true, enc := none, dec := some 22 }, .int 7)]) := by rfl
 
 /-! non-vacuity -/
 example : primOk (.inst ['K'] false [(['a'], FMeta.plain, .tuple [.set [.path ['p']], .enum ['C'] ['R']]),
